@@ -313,8 +313,9 @@ def gen_e2e(rng):
     nsteps = rng.randint(2, 5)
     sched = [[rng.random() < 0.6 for _ in flags] for _ in range(nsteps + 8)]
     bare_nop = rng.random() < 0.3
+    # (every third method is printed before it is run: reading a description must not change it)
     return {"graph": g, "flags": flags, "guard_of": guard_of, "enders": enders, "nsteps": nsteps,
-            "sched": sched, "bare_nop": bare_nop}
+            "sched": sched, "bare_nop": bare_nop, "printed": rng.random() < 0.35}
 
 
 def check_e2e(case, rec, hang_s=30.0):
@@ -345,6 +346,9 @@ def check_e2e(case, rec, hang_s=30.0):
         stmts.append(Nop(id="bare_nop", depends_on=frozenset([g["ids"][0]])))
     phase = ExecutionPhase("main", "main", frozenset(stmts))
     dag = DAGCode({"main": phase}, "main")
+    if case.get("printed"):
+        str(dag)
+        rec.count("methods_printed_before_run")
     step = [0]
     calls = [[]]
 
@@ -463,7 +467,8 @@ def gen_e2e_phases(rng):
                        "switch_to": rng.randrange(nph), "next": rng.choice([(p + 1) % nph, (p + 1) % nph, p])})
     nsteps = rng.randint(3, 7)
     sched = [[rng.random() < 0.55 for _ in flags] for _ in range(nsteps + 8)]
-    return {"phases": phases, "flags": flags, "nsteps": nsteps, "sched": sched, "graph": g0}
+    return {"phases": phases, "flags": flags, "nsteps": nsteps, "sched": sched, "graph": g0,
+            "printed": rng.random() < 0.35}
 
 
 def check_e2e_phases(case, rec, hang_s=30.0):
@@ -494,6 +499,9 @@ def check_e2e_phases(case, rec, hang_s=30.0):
                 stmts.append(AssignFunctionCall(("w_" + x,), "<func>rec", (code,), **kw))
         phs[f"ph{p}"] = ExecutionPhase(f"ph{p}", f"ph{ph['next']}", frozenset(stmts))
     dag = DAGCode(phs, "ph0")
+    if case.get("printed"):
+        str(dag)
+        rec.count("methods_printed_before_run")
     step = [0]
     calls = [[]]
 
